@@ -39,6 +39,9 @@ def const_value(I, s, want_ty):
             v = ((1 << (b - 1)) - 1 if sg else (1 << b) - 1) if s.endswith("MAX") else (-(1 << (b - 1)) if sg else 0)
             return Int(t, v)
     if "PhantomData" in s: return Agg("PhantomData", [])
+    m = re.fullmatch(r"<(\w+) as bitflags::Bits>::(EMPTY|ALL)", s)
+    if m:
+        return Int(m.group(1), 0 if m.group(2) == "EMPTY" else (1 << INT_BITS[m.group(1)]) - 1)
     return None
 
 
@@ -228,12 +231,19 @@ def _trait(selfty, trait, tname, method, c):
         if sp in ("Arc", "Box", "Rc", "std::sync::Arc"): return lambda I, a, fr, d: Ptr(Cell(a[0]), sp.split("::")[-1].lower())
         return lambda I, a, fr, d: a[0] if False else NotImplemented
     if tname == "Into" and method == "into":
+        targ_m = re.match(r"[\w:]+<(.*)>$", trait)
+        targ_ty = parse_ty(targ_m.group(1)) if targ_m else None
+
         def into(I, a, fr, d):
             v = a[0]
+            if d is None: d = targ_ty
             if d is None: return NotImplemented
             if d.kind == "int":
                 if isinstance(v, Int): return int_cast(v, d.name)
                 if isinstance(v, bool) or z3.is_bool(v): return int_cast(I._b2i(v), d.name)
+                if isinstance(v, (EnumV, Agg)):
+                    f = I.P._find_trait_method(d.name, f"From<{selfty}>", "from", fr.fn.crate)
+                    if f is not None: return I.run_fn(f, [v])
             if d.kind == "array" and isinstance(deref(v), Seq): return v
             if d.kind == "array" and isinstance(v, Opaque): return colls.opaque_to_array(I, v, d)
             if d.kind == "adt" and d.last() == "Vec":
@@ -441,6 +451,10 @@ def _inherent(head, last, plain, c):
                 ol.cells[0].v = some(I, v)
             return Ref(ol.cells[0].v.cells[0])
         return goi
+    if head == "Flag":
+        if last == "new": return lambda I, a, fr, d: Agg("Flag", [Cell(a[0]), Cell(a[1])])
+        if last == "value": return lambda I, a, fr, d: Ref(deref(a[0]).cells[1])
+        if last == "name": return lambda I, a, fr, d: deref(a[0]).cells[0].v
     if head == "Mutex":
         return colls.mutex_method(last)
     if head == "String" or plain.startswith("std::string::String::"):
